@@ -17,7 +17,15 @@ FILES = {
  "kmipclient/client.go": ["C11", "C10", "C12", "C13", "C19"],
  "kmipclient/middlewares.go": ["C19"],
  "ttlv/io.go": ["C07", "C08", "C11"],
+ # second pass
+ "kmipserver/http.go": ["C08"],
+ "kmipserver/middlewares.go": ["C19", "C08"],
+ "kmipclient/sign_verify.go": ["C12"],
+ "kmipclient/dialer_cluster.go": ["C13"],
+ "responses.go": ["C12", "C09"],
+ "requests.go": ["C12", "C13", "C09"],
 }
+ONLY_FUNCS = {"responses.go": {"Err"}, "requests.go": {"NewRequestMessage"}}
 CLIENT_FUNCS = {"DialContext","CloneCtx","Clone","Close","reconnect","doRountrip","Roundtrip","negotiateVersion","Request","Batch","BatchOpt","ExecContext","Unwrap","WithKmipVersions","EnforceVersion","Version"}
 OUT = "/verif/mutation_campaign"
 NPAR = 5
@@ -62,6 +70,7 @@ def main():
             m = re.match(r"\S+ (\w+):", desc)
             fn = m.group(1) if m else ""
             if f == "kmipclient/client.go" and fn not in CLIENT_FUNCS: continue
+            if f in ONLY_FUNCS and fn not in ONLY_FUNCS[f]: continue
             jobs.append((f, f"{d}/{name}", desc, mid))
     print(len(jobs), "mutants to process", flush=True)
     wtc = "/tmp/mutwt-check"
